@@ -3,6 +3,7 @@ import FrappyModel.Datatypes.Import
 import FrappyModel.Node.AccessLock
 import FrappyModel.Node.ChangeSection
 import FrappyModel.Node.CheckChain
+import FrappyModel.Node.Forward
 import FrappyModel.Spec.C18
 /-
 C04 — No invalid, forbidden or out-of-limit request ever reaches the driver.
@@ -376,5 +377,128 @@ def HistoryOK (pre : Predef) : Node J V → List (Env V × Request J V) → Prop
   | _, [] => True
   | n, (env, r) :: rest =>
     RequestOK pre env n r (obsOf n (step pre env n r)) ∧ HistoryOK pre (step pre env n r).node rest
+
+/-! ## write paths that forward (parameters generated by helper classes)
+
+The write method of a member of a `StructParam` (struct layout), of a `StructParam` itself (member layout) or of a
+`FloatEnumParam` is generated: it hands the value on to the write method of another parameter, and only that one (or the
+one after it) is the driver's.  "The driver's write method is invoked only if … the payload … satisfies the module's
+current dynamic limits and check hooks" then speaks about EVERY parameter the value passes on its way to the driver:
+the addressed one, and each parameter it is handed to — with the value that parameter is given (the member put into
+the current value of the struct; the member taken out of the struct; the index closest to the float).  A request that
+comes in through a member must not reach `write_<struct>` unless the limits and `check_<struct>` hooks of the struct
+agree, and the other way round. -/
+
+section forward
+open Frappy.Node.Forward
+
+/-- the generated `write_<a>`, called with `v`, calls `write_<a'>` with `v'` -/
+def Hands (c : Ctx J V) (a : String) (v : V) (a' : String) (v' : V) : Prop :=
+  ∃ p w, paramOf c.mod a = some p ∧ p.dt.revalidate v = .ok w ∧ (a', v') ∈ succs c a w
+
+/-- the write path of a request that gives `v` to parameter `a`: `b` is given `u` somewhere on it -/
+inductive Reach (c : Ctx J V) : String → V → String → V → Prop
+  | here (a : String) (v : V) : Reach c a v a v
+  | step {a : String} {v : V} {a' : String} {v' : V} {b : String} {u : V} :
+      Hands c a v a' v' → Reach c a' v' b u → Reach c a v b u
+
+/-- parameter `a` lets `v` through: valid for its datatype, inside its current limits, its check hooks agree -/
+def VisitOK (c : Ctx J V) (a : String) (v : V) : Prop :=
+  ∃ p, paramOf c.mod a = some p ∧ (∃ w, p.dt.revalidate v = .ok w) ∧ ChecksOK c.env c.mod a v p.checks
+
+/-- "satisfies the module's current dynamic limits and check hooks", for a write path that forwards -/
+def PathOK (c : Ctx J V) (a : String) (v : V) : Prop := ∀ b u, Reach c a v b u → VisitOK c b u
+
+/-- no generated function of the class calls more than one write method (no `StructParam` in member layout) -/
+def Linear (c : Ctx J V) : Prop := ∀ a ms, c.body a ≠ .toMembers ms
+
+/-! the decision list for one request (monitor) -/
+
+/-- class of the objection of one parameter of the path, `none` when it lets the value through -/
+def visitVerdict (c : Ctx J V) (a : String) (v : V) : Option ErrCls :=
+  match paramOf c.mod a with
+  | none => some .internal
+  | some p =>
+    match p.dt.revalidate v with
+    | .error e => some e.cls
+    | .ok _ => chainVerdict c.env c.mod a v p.checks
+
+/-- the parameters the value passes with the value each is given, in call order (bounded depth) -/
+def pathList : Nat → Ctx J V → String → V → List (String × V)
+  | 0, _, a, v => [(a, v)]
+  | fuel + 1, c, a, v =>
+    (a, v) ::
+      match paramOf c.mod a with
+      | none => []
+      | some p =>
+        match p.dt.revalidate v with
+        | .error _ => []
+        | .ok w => (succs c a w).flatMap (fun av => pathList fuel c av.1 av.2)
+
+inductive FwdVerdict (V : Type)
+  | refuse (cls : ErrCls)
+  | allow (calls : List (DriverCall V))
+  deriving DecidableEq, Repr
+
+/-- the driver-written write methods on the path, each with the validated value -/
+def pathCalls (c : Ctx J V) (l : List (String × V)) : List (DriverCall V) :=
+  l.filterMap (fun av =>
+    match c.body av.1, paramOf c.mod av.1 with
+    | .driver, some p =>
+      match p.dt.revalidate av.2 with
+      | .ok w => some (DriverCall.write c.mod.name av.1 w)
+      | .error _ => none
+    | _, _ => none)
+
+/-- all or nothing: one objection anywhere on the path refuses the request (class of the first one in call order) -/
+def pathVerdict (fuel : Nat) (c : Ctx J V) (a : String) (v : V) : FwdVerdict V :=
+  match (pathList fuel c a v).findSome? (fun av => visitVerdict c av.1 av.2) with
+  | some cls => .refuse cls
+  | none => .allow (pathCalls c (pathList fuel c a v))
+
+/-- NoSuchModule, NoSuchParameter, ReadOnly, WrongType / RangeError for the payload as in `changeVerdict`, then the path -/
+def forwardVerdict (pre : Predef) (fuel : Nat) (env : Env V) (ops : ValOps V) (body : String → String → Body)
+    (n : Node J V) (spec : Spec) (j : J) : FwdVerdict V :=
+  match target "target" spec with
+  | none => .refuse .protocol
+  | some (m, a) =>
+    match modulesNamed n m with
+    | [] => .refuse .noSuchModule
+    | mod :: _ =>
+      match paramsAt pre mod a with
+      | [] => .refuse .noSuchParameter
+      | p :: _ =>
+        if p.readonly || p.constant.isSome then .refuse .readOnly
+        else
+          match p.dt.accept j (some p.entry.value) with
+          | .error e => .refuse e.cls
+          | .ok v =>
+            if p.isLimitsPair && pairInverted env v then .refuse .rangeError
+            else pathVerdict fuel ⟨env, ops, mod, body mod.name⟩ p.attr v
+
+def isWrite : DriverCall V → Bool
+  | .write _ _ _ => true
+  | _ => false
+
+def isErrorReply : Reply J → Bool
+  | .error _ => true
+  | _ => false
+
+/-- Refused: no driver call at all, cache untouched, no update, an error report of the fitting class.
+Admitted: the driver-written write methods of the path are called once each, in order, with exactly the validated
+values — all of them unless the request ends with an error report (a driver raised), then the first ones. -/
+def ForwardExchangeOK [DecidableEq V] (vd : FwdVerdict V) (o : Obs J V) : Prop :=
+  match vd with
+  | .refuse cls => o.calls = [] ∧ o.emits = [] ∧ o.cacheAfter = o.cacheBefore ∧ o.reply = .error cls
+  | .allow calls =>
+    (o.calls.filter isWrite).isPrefixOf calls = true ∧ (isErrorReply o.reply = false → o.calls.filter isWrite = calls)
+
+instance [DecidableEq J] [DecidableEq V] (vd : FwdVerdict V) (o : Obs J V) : Decidable (ForwardExchangeOK vd o) := by
+  unfold ForwardExchangeOK; split <;> infer_instance
+
+def forwardExchangeOKB [DecidableEq J] [DecidableEq V] (vd : FwdVerdict V) (o : Obs J V) : Bool :=
+  decide (ForwardExchangeOK vd o)
+
+end forward
 
 end Frappy.Spec.C04
